@@ -1,6 +1,9 @@
 //! In-process property checks (one binary, one sub-command per property).
 mod c11;
 mod c12;
+mod c13;
+mod c14;
+mod c15;
 mod c17;
 mod sess;
 mod stores;
@@ -19,6 +22,9 @@ fn main() {
     match prop.as_str() {
         "C11" => c11::main(chk),
         "C12" => c12::main(chk),
+        "C13" => c13::main(chk),
+        "C14" => c14::main(chk),
+        "C15" => c15::main(chk),
         "C17" => c17::main(chk),
         _ => {
             eprintln!("rtprops: unknown property {prop}");
